@@ -90,17 +90,27 @@ pub fn all_cells() -> Vec<Cell> {
     for loc in ALL_LOCS {
         out.push(Cell { loc, props: vec![] });
         for spec in PROP_TABLE.iter() {
-            for val in boundary_values(spec) {
-                for count in 1..=2 {
+            let vals = boundary_values(spec);
+            for (vi, val) in vals.iter().enumerate() {
+                // shapes of the occurrence(s): one; two equal neighbours; two neighbours with different values; two
+                // occurrences separated by a User Property (legal everywhere, so it never changes the verdict);
+                // one occurrence behind / in front of a User Property
+                let other = vals[(vi + 1) % vals.len()].clone();
+                let p = |v: &PVal| Prop { id: spec.id, val: v.clone() };
+                let user = || Prop { id: pid::USER_PROPERTY, val: PVal::Pair("k".into(), "v".into()) };
+                let mut shapes: Vec<Vec<Prop>> = vec![vec![p(val)], vec![p(val), p(val)], vec![p(val), user(), p(val)], vec![user(), p(val)], vec![p(val), user()], vec![user(), p(val), user(), p(val)]];
+                if other != *val {
+                    shapes.push(vec![p(val), p(&other)]);
+                    shapes.push(vec![p(val), user(), p(&other)]);
+                }
+                for shape in shapes {
                     let mut props = Vec::new();
                     // Authentication Data is only legal together with an Authentication Method (§3.1.2.11.10,
                     // §3.2.2.3.18, §3.15.2.2.3): supply one so that the cell tests placement, not that rule
                     if spec.id == pid::AUTHENTICATION_DATA {
                         props.push(Prop { id: pid::AUTHENTICATION_METHOD, val: PVal::Str("m".into()) });
                     }
-                    for _ in 0..count {
-                        props.push(Prop { id: spec.id, val: val.clone() });
-                    }
+                    props.extend(shape);
                     out.push(Cell { loc, props });
                 }
             }
@@ -214,7 +224,7 @@ pub fn random_cell() -> BoxedStrategy<Cell> {
 pub fn run(ctx: &Ctx) -> Report {
     let mut rep = Report::new(
         "complete table: 27 property kinds x 14 property-carrying locations (CONNECT, will, CONNACK, PUBLISH, PUBACK, PUBREC, PUBREL, PUBCOMP, SUBSCRIBE, SUBACK, \
-         UNSUBSCRIBE, UNSUBACK, DISCONNECT, AUTH) x occurrences {1,2} x boundary values, builder path and parser path (reference-encoded); \
+         UNSUBSCRIBE, UNSUBACK, DISCONNECT, AUTH) x occurrence shapes {one; two equal neighbours; two neighbours with different values; two separated by a User Property; one before/after a User Property} x boundary values, builder path and parser path (reference-encoded); \
          plus random multi-property sets; every cell is a distinct decision (non-trivial); oracle = table 2-4 of the specification transcribed in ap.rs",
     );
     let cells = all_cells();
